@@ -603,3 +603,23 @@ def _np_delete(eng, node, arr, index, axis=None):
     i = z3.If(i < 0, i + arr.n, i)
     k = z3.Int("_del")
     return SList(arr.t, arr.n - 1, [z3.Lambda([k], z3.If(k < i, c[k], c[k + 1])) for c in arr.comps])
+
+
+class ARange:
+    """numpy.arange(start, stop, step) with symbolic bounds (only membership is supported)"""
+
+    def __init__(self, start, stop, step):
+        self.start, self.stop, self.step = start, stop, step
+
+
+@reg("numpy.arange")
+def _arange(eng, node, *a, dtype=None):
+    if len(a) == 1:
+        start, stop, step = 0, a[0], 1
+    elif len(a) == 2:
+        start, stop, step = a[0], a[1], 1
+    else:
+        start, stop, step = a
+    if not (ops.is_concrete_num(step) and ops.q(step) == 1):
+        raise Unsupported("arange with a step other than 1")
+    return ARange(start, stop, step)
